@@ -5,24 +5,6 @@ import Mathlib.Tactic.Ring
 -/
 namespace Litex.Cdc
 
-def psRun (s : PSState) : List PSIn → PSState
-  | [] => s
-  | x :: xs => psRun (psStep s x) xs
-
-/-- Input pulses: instants with an i-clock edge while `i` is high. -/
-def psSent : List PSIn → Nat
-  | [] => 0
-  | x :: xs => (if x.ti && x.i then 1 else 0) + psSent xs
-
-/-- Output pulses: o-clock edges at which `o` is high. -/
-def psSeen (s : PSState) : List PSIn → Nat
-  | [] => 0
-  | x :: xs => (if x.tO && psOut s then 1 else 0) + psSeen (psStep s x) xs
-
-/-- Toggles travelling through the synchroniser chain. -/
-def psFlight (s : PSState) : Nat :=
-  (if s.tog != s.r1 then 1 else 0) + (if s.r1 != s.r2 then 1 else 0) + (if s.r2 != s.tor then 1 else 0)
-
 theorem psFlight_le (s : PSState) : psFlight s ≤ 3 := by
   obtain ⟨tog, r1, r2, tor⟩ := s
   cases tog <;> cases r1 <;> cases r2 <;> cases tor <;> decide
@@ -51,18 +33,6 @@ theorem ps_seen_le (xs : List PSIn) : ∀ s, psSeen s xs + psFlight (psRun s xs)
     have h2 := ih (psStep s x)
     simp only [psSeen, psRun, psSent]
     omega
-
-/-- Pending flag of a schedule: the last input pulse has not yet been followed by an o-clock edge that
-    caught it. -/
-def pendNext (pend : Bool) (x : PSIn) : Bool :=
-  if x.ti && x.i then !(x.tO && x.m) else (if x.tO then false else pend)
-
-/-- Input pulses are spaced: a new pulse comes only after the previous one has been caught by the first
-    synchroniser flop (at least one o-clock edge strictly after it, or a coincident edge that resolved to the new
-    value).  Pulses separated by three or more o-clock edges satisfy this. -/
-def PSpaced : Bool → List PSIn → Prop
-  | _, [] => True
-  | pend, x :: xs => ((x.ti && x.i) = true → pend = false) ∧ PSpaced (pendNext pend x) xs
 
 theorem pend_step (s : PSState) (x : PSIn) (pend : Bool) (hp : pend = (s.tog != s.r1))
     (h : (x.ti && x.i) = true → pend = false) :
